@@ -445,6 +445,19 @@ def run(ck):
     shared.precedence(ck, ffm, tla, 'intermediate', 'attributes', 'context._apply_to_all_nodes', 'atoms of link interactions: what the line writes overrides the link-wide attributes',
                       'PREC-specific-wins|_treat_link_interaction_atoms')
     shared.no_monomorphism(ck, [DL, MOL])
+    # measured parameters (angle(...) in a link): the arc cosine is taken of a value clipped to [-1, 1] -- rounding puts the cosine of an exactly straight
+    # or folded-back triplet just outside, and the parameter written would be NaN
+    geo = idx.mod('vermouth/geometry.py')
+    for gname, gfn in sorted(geo.functions.items()):
+        acs = calls_with_env(gfn, lambda c: call_name(c) in ('np.arccos', 'numpy.arccos', 'math.acos'))
+        if not acs:
+            continue
+        ck.analysed(geo, gfn)
+        for c_, st_, cond_, env_ in acs:
+            arg = flow.subst(c_.args[0], env_) if c_.args else None
+            okc = isinstance(arg, ast.Call) and call_name(arg) in ('np.clip', 'numpy.clip') and len(arg.args) == 3 and try_fold(arg.args[1], default=None) == -1 and try_fold(arg.args[2], default=None) == 1
+            ck.ob('BND-cosine', geo.loc(c_), okc, '{}: the argument of the arc cosine is clipped to [-1, 1] (`{}`)'.format(gname, u(arg)[:80] if arg is not None else '?'),
+                  key='BND-cosine|' + gname)
     shared.truthy_zero(ck, [DL])
     shared.runs_every_molecule(ck, 'vermouth/processors/do_links.py', 'DoLinks', 'MPT-every-molecule')
     ck.assume('induced-ness and completeness of the networkx matcher, and "no unjustified interaction", are not decided')
